@@ -17,7 +17,7 @@ ID = 'C16'
 LEVEL = 'exploration'
 RULE = ('Metamorphic: one instance with 1-2 registered services and 1-2 browsers receives a generated history of datagrams (QM/QU/'
         'mixed/probe/TC/legacy-port queries; responses with new, refreshed, goodbye and cache-flush records of browsed types) with '
-        'float-exact gaps; run R delivers each datagram once, run D delivers each twice in immediate succession on the same socket '
+        'float-exact gaps, on an IPv4 or an IPv6 socket; run R delivers each datagram once, run D delivers each twice in immediate succession on the same socket '
         'at the same virtual instant. The library\'s jitter is a keyed function of (call site, virtual millisecond) so the runs cannot '
         'drift through draw counts. Oracle: the traces (time, socket, destination, decoded content) and the browser callback logs of '
         'D and R are equal, except that a unicast reply to a datagram containing a QU question may appear twice in D. Non-trivial = '
@@ -53,7 +53,8 @@ def scenario(draw) -> Dict[str, Any]:
         events.append(ev)
     return {'seed': draw(st.integers(0, 10**6)), 'services': draw(st.sampled_from([[0], [0, 1]])),
             'browsers': draw(st.lists(st.lists(st.integers(0, 2), min_size=1, max_size=2, unique=True).map(sorted), min_size=1, max_size=2)),
-            'settle_ms': draw(st.sampled_from([1500, 40000])), 'events': events}
+            'settle_ms': draw(st.sampled_from([1500, 40000])), 'events': events,
+            'socks': draw(st.sampled_from(['v4', 'v4', 'v6']))}
 
 
 def strategy(tier: str):
@@ -80,7 +81,8 @@ def run_once(case: Dict[str, Any], dup: bool) -> Dict[str, Any]:
     async def main(w: sim.World) -> None:
         from zeroconf.asyncio import AsyncServiceBrowser
 
-        host = w.add_host('H', socks=[('v4', '10.0.0.1')])
+        v6 = case.get('socks', 'v4') == 'v6'     # IPv6 sockets report 4-tuple source addresses (addr, port, flow, scope)
+        host = w.add_host('H', socks=[('v6', 'fe80::1')] if v6 else [('v4', '10.0.0.1')])
         await host.zc.async_wait_for_start()
         for k in case['services']:
             task = await host.azc.async_register_service(sim.make_service_info(OWN[k]))
@@ -104,7 +106,7 @@ def run_once(case: Dict[str, Any], dup: bool) -> Dict[str, Any]:
                 qs = [_qname(q, case['services']) for q in ev['qs']]
                 auth = [rp.wire_rr_of_ident(('PTR', TYPES[0], 'cand.' + TYPES[0]), 4500)] if ev['probe'] else []
                 data = rp.build_query(qs, [], qid=i + 1, tc=ev['tc'], authorities=auth)
-                src = ('10.0.0.%d' % (77 + ev['client']), ev['port'])
+                src = ('fe80::%x' % (0x77 + ev['client']), ev['port'], 0, 2) if v6 else ('10.0.0.%d' % (77 + ev['client']), ev['port'])
                 has_qu = any(qu for _, _, qu in qs)
             else:
                 recs = []
@@ -115,7 +117,7 @@ def run_once(case: Dict[str, Any], dup: bool) -> Dict[str, Any]:
                         r['sp'] = spelling.setdefault((r['type'], r['inst']), r['sp'])
                     recs.append(r)
                 data = wire.encode({'id': i + 1, 'flags': 0x8400, 'qd': [], 'an': [c04.to_rr(r) for r in recs], 'ns': [], 'ar': []})
-                src = ('10.0.0.9', 5353)
+                src = ('fe80::9', 5353, 0, 2) if v6 else ('10.0.0.9', 5353)
                 has_qu = False
             injected.append({'t': w.now_ms, 'g': w.gseq, 'qu': has_qu, 'src': src, 'kind': ev['kind']})
             w.net.inject(host, data, src)
@@ -252,7 +254,7 @@ def check(case: Dict[str, Any]) -> Dict[str, Any]:
         raise Violation('duplicating every datagram changed the browser callbacks',
                         {'reference': R['callbacks'], 'duplicated': D['callbacks']}, tag='callbacks-differ')
     effect = bool(r_list) or any(R['callbacks'])
-    classes = []
+    classes = ['socks-' + case.get('socks', 'v4')]
     if r_list:
         classes.append('causes-sends')
     if any(R['callbacks']):
